@@ -3,10 +3,10 @@
 # runs every quick check, restores /repo; a check that raises an alarm here raises a false alarm
 cd "$(dirname "$0")/.."
 for a in "$@"; do
-  git -C /repo apply "$PWD"/seeded/harmless/$a/patch.diff || { echo "$a: patch does not apply"; continue; }
+  git -C "${MOTO_REPO:-/repo}" apply "$PWD"/seeded/harmless/$a/patch.diff || { echo "$a: patch does not apply"; continue; }
   echo "== harmless/$a"
   sh tools/run_all.sh quick 2>&1 | sort > seeded/harmless/$a/result.txt
-  git -C /repo checkout -- .
+  git -C "${MOTO_REPO:-/repo}" checkout -- .
   git checkout -- evidence 2>/dev/null
   rm -f replays/*.json
   cat seeded/harmless/$a/result.txt | cut -c1-200
